@@ -113,6 +113,11 @@ IpaProveStep(l0, e) ==
 IpaVerifyDevs(l0, e) ==
   IF ~ihon.set THEN <<>>
   ELSE IF Has(e, "panic") THEN <<Dev(l0, "C02", <<"CheckIPAProof panicked", e.panic>>, <<"ipa_verify", "panic">>)>>
+  ELSE IF Has(e, "proof")      \* a proof that differs from the honest one in a single component, offered with the correct result
+  THEN IF ~(AllValid(e.proof.L) /\ AllValid(e.proof.R)) THEN <<>>
+       ELSE ELet(IPAVerify(TNew(ihon.label), Cfg, AP, ihon.C, [L |-> Affs(e.proof.L), R |-> Affs(e.proof.R), a |-> e.proof.a], ihon.point, e.result), LAMBDA ref :
+              One(e.ok = ref.ok /\ ~e.err, l0, "C02", <<"CheckIPAProof disagrees with the reference verifier", e.pcls, e.rcls>>, <<"ipa_verify", "agreement-perturbed">>) \o
+              One(~e.ok, l0, "C02", <<"CheckIPAProof accepted a proof that differs from the honest one", e.pcls, e.rcls>>, <<"ipa_verify", "accepted-perturbed">>))
   ELSE ELet(IPAVerify(TNew(ihon.label), Cfg, AP, ihon.C, ihon.proof, ihon.point, e.result), LAMBDA ref :
        One(e.ok = ref.ok /\ ~e.err, l0, "C02", <<"CheckIPAProof disagrees with the reference verifier", e.pcls, e.rcls>>, <<"ipa_verify", "agreement">>) \o
        One(e.ok = (e.result = ihon.y), l0, "C04", <<"accepted iff result = p(point) violated", e.pcls, e.rcls, e.ok>>, <<"ipa_verify", IF e.ok THEN "accepted-wrong" ELSE "rejected-correct">>))
